@@ -365,8 +365,8 @@ def namei_cfgs():
     # follow_link one level below the limit: one expansion (target walk at depth 8), fast / slow / inline target source
     # INCONCLUSIVE: never seen to complete (400 s under load), kept in the thorough tier only
     c.append(mk(0, 7, 1, FLINK=None, _tier="thorough"))
-    c.append(mk(1, 7, 1, FLINK=None, _tier="thorough"))
-    c.append(mk(2, 7, 1, FLINK=None, _tier="thorough"))
+    # mk(1, 7, 1, FLINK=None) and mk(2, 7, 1, FLINK=None) (slow / inline symlink target source at depth 7): out of memory at 20 GB in both
+    # back ends (thorough run of the continuation session): not registered; KIND 0 (fast symlink) at depth 7 passes in 250 s / 7.8 GB
     # INCONCLUSIVE (symbolic execution does not finish in 15 min: the real recursion is explored to the unwind bound on every
     # component): mk(0, 0, 0, DMAX=1), mk(0, 0, 1, DMAX=1), mk(0, 7, 0), mk(0, 7, 1), mk(0, 6, 1), mk(0, 0, 1, FLINK=None)
     return c
